@@ -32,6 +32,7 @@ def check(run):
     ok = len(rets) == 1 and isinstance(rets[0], ast.Tuple) and [norm(e) for e in rets[0].elts][:3] == f.posparams[:2] + ['r']
     run.check(ok, 'R5.ret', f, rets[0] if rets else 'return', 'the kernel must return the updated (tableau, phases, rank, ...)')
     for rel in (K.PY_S, K.TC_S):
+        K.stabilizers_property(run, repo, rel)
         m = repo.func(rel, 'StabilizerState.measure')
         inout.check_function(run, repo, m, {'stabilizer_measure'})
         bind.check_function_calls(run, repo, m, only={'stabilizer_measure'})
@@ -42,6 +43,9 @@ def check(run):
                 obs = m.posparams[1]
                 run.check(args[:5] == ['self.gs', 'self.ps', '%s.gs' % obs, '%s.ps' % obs, 'self.r'], 'R2.measure', m, c,
                           'measure(obs) must hand (self.gs, self.ps, obs.gs, obs.ps, self.r) to the kernel')
+        conv = [norm(st.value) for st, ctx in walk(m.node) if isinstance(st, ast.Assign) and norm(st.targets[0]) == m.posparams[1]
+                and any(pol and 'StabilizerState' in norm(t) for t, pol in ctx.conds)]
+        run.check(conv == ['%s.stabilizers' % m.posparams[1]], 'R13.active', m, 'obs = obs.stabilizers', 'measuring a state measures its active stabilizers only')
         rets = [st.value for st, _ in walk(m.node) if isinstance(st, ast.Return)]
         run.check(len(rets) == 1 and norm(rets[0]) == '(out, log2prob)', 'R2.measure', m, 'return',
                   'measure must return (out, log2prob) of the kernel')
